@@ -614,6 +614,15 @@ func helperMonitors(ctx context.Context, inner state.CoreState, gate *gateState,
 			}
 		}
 
+		// C03: Teardown reports ready-to-destroy only if the finalizer set was empty when the teardown took effect
+		if c.Kind == "teardown" && r.coq == "(OrReady true)" {
+			for _, e := range log {
+				if e.Tid == i && e.Err == nil && e.Kind == "update" && !e.Res.Metadata().Finalizers().Empty() {
+					problems = append(problems, fmt.Sprintf("ready-with-finalizers: Teardown call %d reported ready, but the marking write it committed carries finalizers %v", i, *e.Res.Metadata().Finalizers()))
+				}
+			}
+		}
+
 		switch c.Kind {
 		case "uwc", "addfin", "remfin", "modify", "teardown":
 			if failed && writes > 0 {
